@@ -14,6 +14,10 @@ import (
 	"verif/harness/rig"
 
 	"github.com/herumi/bls-eth-go-binary/bls"
+	pb "github.com/wealdtech/eth2-signer-api/pb/v1"
+	e2wallet "github.com/wealdtech/go-eth2-wallet"
+	filesystem "github.com/wealdtech/go-eth2-wallet-store-filesystem"
+	e2wtypes "github.com/wealdtech/go-eth2-wallet-types/v2"
 )
 
 // fakeContribution builds a genuine polynomial of the given number of coefficients and the share for id.
@@ -268,10 +272,201 @@ func C13(cfg Cfg) int {
 			run.Violate("an instance crashed during key generation; last case: "+last, tail(res.Out, 4000))
 		}
 	}
+	c13Wire(run, cfg)
 	run.Eval(run.Get("cases"))
 	run.Sample(map[string]any{"case": "n=3 t=2 fault=vector-too-long at=contribute#2: the sender's contribution is replaced by a genuine degree-2 polynomial (3 commitments) with the matching share for the recipient"})
 	if run.Get("cases") == 0 || run.Get("receiver_verdicts_observed") == 0 {
 		run.Inconclusive("no fault case was executed")
 	}
 	return run.Finish()
+}
+
+// c13Wire feeds a REAL daemon faulty contributions over TLS/gRPC: the harness plays two configured peers, one
+// with a lower identifier (it sends contribution requests to the daemon) and one with a higher identifier (a
+// gRPC server the daemon's own sender calls during execute, answering with scripted replies).
+func c13Wire(run *evid.Run, cfg Cfg) {
+	ca, err := rig.NewCA("verif-ca")
+	if err != nil {
+		run.Inconclusive(err.Error())
+		return
+	}
+	const lowID, daemonID, highID = uint64(2), uint64(5), uint64(9)
+	pDaemon, pHigh := rig.FreePort("127.0.0.1"), rig.FreePort("127.0.0.3")
+	peers := map[uint64]string{lowID: "127.0.0.2:1", daemonID: fmt.Sprintf("127.0.0.1:%d", pDaemon), highID: fmt.Sprintf("127.0.0.3:%d", pHigh)}
+	d, err := rig.PrepareDaemon(rig.DaemonOpts{Dir: cfg.Dir("c13-wire"), ID: daemonID, IP: "127.0.0.1", Port: pDaemon, CA: ca, Peers: peers,
+		Permissions: map[string]map[string][]string{"client1": {"D": {"All"}}}, DistWallets: []string{"D"}})
+	if err != nil {
+		run.Inconclusive(err.Error())
+		return
+	}
+	if err := d.Start(); err != nil {
+		run.Inconclusive("cannot start daemon: " + err.Error() + d.LogTail(300))
+		return
+	}
+	defer d.Kill()
+	high, err := rig.NewFakePeer(ca, "127.0.0.3", pHigh)
+	if err != nil {
+		run.Inconclusive("cannot start fake peer: " + err.Error())
+		return
+	}
+	defer high.Stop()
+	lowCert, _ := ca.Issue(rig.CertOpts{CN: "127.0.0.2", IPs: []string{"127.0.0.2"}})
+	conn, err := rig.Dial(d.Addr, rig.ClientTLS(ca, lowCert.TLS), "")
+	if err != nil {
+		run.Inconclusive(err.Error())
+		return
+	}
+	defer conn.Close()
+	dkg := pb.NewDKGClient(conn)
+	ids := []uint64{lowID, daemonID, highID}
+	t := 2
+	call := func() (context.Context, context.CancelFunc) {
+		return context.WithTimeout(context.Background(), 20*time.Second)
+	}
+	holds := func(account string) bool {
+		_, accountName, _ := strings.Cut(account, "/")
+		w, err := e2wallet.OpenWallet("D", e2wallet.WithStore(filesystem.New(filesystem.WithLocation(filepath.Join(d.Opts.Dir, "wallets")))))
+		if err != nil {
+			return false
+		}
+		_, err = w.(e2wtypes.WalletAccountByNameProvider).AccountByName(context.Background(), accountName)
+		return err == nil
+	}
+	// contribution for recipient `to` with the given fault ("" = valid).
+	contribution := func(fault string, to uint64) ([]byte, [][]byte) {
+		sec, vv := fakeContribution(t, to)
+		switch fault {
+		case "share-random":
+			var k bls.SecretKey
+			k.SetByCSPRNG()
+			sec = k.Serialize()
+		case "share-for-other-id":
+			sec, vv = fakeContribution(t, lowID+highID-to+1)
+		case "commitment-altered":
+			var k bls.SecretKey
+			k.SetByCSPRNG()
+			vv[len(vv)-1] = k.GetPublicKey().Serialize()
+		case "vector-too-short":
+			sec, vv = fakeContribution(t-1, to)
+		case "vector-too-long":
+			sec, vv = fakeContribution(t+1, to)
+		}
+		return sec, vv
+	}
+	seq := 0
+	faults := []string{"", "share-random", "share-for-other-id", "commitment-altered", "vector-too-short", "vector-too-long"}
+	for round := 0; round < cfg.N(1, 6); round++ {
+		for _, leg := range []string{"request", "reply"} {
+			for _, fault := range faults {
+				seq++
+				account := fmt.Sprintf("D/wire13-%d", seq)
+				run.Eval(1)
+				witness := map[string]any{"wire": true, "leg": leg, "fault": fault, "account": account}
+				req := &pb.PrepareRequest{Account: account, Passphrase: []byte("pass"), Threshold: uint32(t)}
+				for _, id := range ids {
+					host, port, _ := strings.Cut(peers[id], ":")
+					var p uint32
+					fmt.Sscan(port, &p)
+					req.Participants = append(req.Participants, &pb.Endpoint{Id: id, Name: host, Port: p})
+				}
+				ctx, cancel := call()
+				_, err := dkg.Prepare(ctx, req)
+				cancel()
+				if err != nil {
+					run.Inconclusive("wire prepare failed: " + err.Error())
+					return
+				}
+				// Request leg: the low peer's contribution to the daemon.
+				reqFault := ""
+				if leg == "request" {
+					reqFault = fault
+				}
+				sec, vv := contribution(reqFault, daemonID)
+				ctx, cancel = call()
+				cres, cerr := dkg.Contribute(ctx, &pb.ContributeRequest{Account: account, Secret: sec, VerificationVector: vv})
+				cancel()
+				if reqFault != "" {
+					if cerr == nil {
+						run.Violate(fmt.Sprintf("wire: the daemon accepted a contribution with fault %s from a peer", fault), witness)
+					}
+				} else if cerr != nil {
+					run.Violate("wire: the daemon rejected a valid contribution: "+cerr.Error(), witness)
+				} else {
+					// Share ownership: the reply must be the share for the caller (peer 2) and nobody else.
+					var sk bls.SecretKey
+					if sk.Deserialize(cres.GetSecret()) == nil {
+						pub := sk.GetPublicKey().Serialize()
+						for _, id := range ids {
+							ev, err := oracle.EvalVVec(cres.GetVerificationVector(), id)
+							if err == nil && (string(ev) == string(pub)) != (id == lowID) {
+								run.Violate(fmt.Sprintf("wire: the contribution reply to peer %d is (not) the share of participant %d", lowID, id), witness)
+							}
+						}
+						run.Count("wire_share_ownership_checks", 1)
+					}
+				}
+				// Reply leg: what the high peer answers when the daemon's own sender calls it during execute.
+				repFault := ""
+				if leg == "reply" {
+					repFault = fault
+				}
+				rsec, rvv := contribution(repFault, daemonID)
+				high.SetReply(func(*pb.ContributeRequest) (*pb.ContributeResponse, error) {
+					return &pb.ContributeResponse{Secret: rsec, VerificationVector: rvv}, nil
+				})
+				ctx, cancel = call()
+				_, xerr := dkg.Execute(ctx, &pb.ExecuteRequest{Account: account})
+				cancel()
+				if repFault != "" && xerr == nil {
+					run.Violate(fmt.Sprintf("wire: execute succeeded on the daemon although its peer's contribution reply had fault %s", fault), witness)
+				}
+				if fault == "" && xerr != nil {
+					run.Violate("wire: execute failed with valid contributions: "+xerr.Error(), witness)
+				}
+				// What the daemon sent to the high peer must be the high peer's own share.
+				for _, r := range high.Requests() {
+					var sk bls.SecretKey
+					if sk.Deserialize(r.GetSecret()) == nil {
+						pub := sk.GetPublicKey().Serialize()
+						for _, id := range ids {
+							ev, err := oracle.EvalVVec(r.GetVerificationVector(), id)
+							if err == nil && (string(ev) == string(pub)) != (id == highID) {
+								run.Violate(fmt.Sprintf("wire: the contribution the daemon sent to peer %d is (not) the share of participant %d", highID, id), witness)
+							}
+						}
+						run.Count("wire_share_ownership_checks", 1)
+					}
+				}
+				ctx, cancel = call()
+				cm, merr := dkg.Commit(ctx, &pb.CommitRequest{Account: account, ConfirmationData: Root32(3)})
+				cancel()
+				if !d.Alive() {
+					run.Violate(fmt.Sprintf("wire: the daemon died after a contribution with fault %q on the %s leg: %s", fault, leg, firstPanicLine(d.LogTail(30000))), witness)
+					return
+				}
+				held := holds(account)
+				run.Distinct(fmt.Sprintf("wire %s-leg fault=%q commit-ok=%v account-held=%v", leg, fault, merr == nil, held))
+				if fault != "" {
+					if merr == nil && len(cm.GetPublicKey()) > 0 {
+						run.Violate(fmt.Sprintf("wire: commit succeeded although a contribution had fault %s on the %s leg", fault, leg), witness)
+					}
+					if held {
+						run.Violate(fmt.Sprintf("wire: the daemon holds account %s although a contribution had fault %s on the %s leg", account, fault, leg), witness)
+					}
+					run.Count("wire_fault_cases", 1)
+				} else {
+					if merr != nil || !held {
+						run.Violate(fmt.Sprintf("wire: a generation with valid contributions did not complete on the daemon (commit err %v, account held %v)", merr, held), witness)
+					}
+					run.Count("wire_valid_generations", 1)
+				}
+				ctx, cancel = call()
+				_, _ = dkg.Abort(ctx, &pb.AbortRequest{Account: account})
+				cancel()
+			}
+		}
+	}
+	if run.Get("wire_fault_cases") == 0 || run.Get("wire_valid_generations") == 0 {
+		run.Inconclusive("the wire slice ran no fault case or no valid generation")
+	}
 }
